@@ -25,7 +25,11 @@
  *   create fail with EPERM (the library retries), `eagain` makes it fail for good, `fail:attr` / `fail:detach` make
  *   pthread_attr_init / pthread_attr_setdetachstate fail (create returns NULL; the PUThread block the call allocated takes
  *   the next handle id and is reported in F= when the library released it inside the call, in L= from then on when not).
+ * - `A set K V fail` / `A replace K V fail` / `A get K fail`: the call on a key that has no native key yet, with the lazy
+ *   pthread_key_create failing (N= shows `kcfail`); `A current fail2` / `fail3`: p_uthread_current of a thread without a stored
+ *   handle with the next 2 / 3 pthread_key_create calls failing (NULL; the PUThreadBase block takes a handle id as above).
  * - `A join H fail`: p_uthread_join with the native pthread_join reporting an error (ESRCH, nothing is joined).
+ * - `A misc` calls p_uthread_ideal_count / p_uthread_yield / p_uthread_current_id in thread A (answer `ok`).
  * - `A prio H P` calls p_uthread_set_priority on a library-created thread that has not ended (no effect on handles).
  * - every case (ops up to `reset`) runs in a forked child; a sanitizer abort ends the whole run with
  *   the child's status.
@@ -137,7 +141,7 @@ static void nat (const char *fmt, ...) {
 
 /* ------------------------------------------------------------------ threads */
 enum { ABSENT, CREATED, RUNNING, FINISHED, ENDED };
-enum { O_NONE, O_CREATE, O_SET, O_REPLACE, O_GET, O_CURRENT, O_EXIT, O_RETURN, O_REF, O_UNREF, O_JOIN, O_KEYNEW, O_KEYFREE, O_RACE, O_PRIO };
+enum { O_NONE, O_CREATE, O_SET, O_REPLACE, O_GET, O_CURRENT, O_EXIT, O_RETURN, O_REF, O_UNREF, O_JOIN, O_KEYNEW, O_KEYFREE, O_RACE, O_PRIO, O_MISC };
 typedef struct {
 	int kind, k, h, joinable, named, notif; long code; unsigned long v;
 	int jv, namelen, full, prio, cmode; unsigned long stack;      /* create options */
@@ -192,7 +196,9 @@ static void notif_common (int fn, void *v) {
 static int is_notif (void (*d) (void *)) { for (int i = 0; i < 16; i++) if (d == (void (*) (void *)) notif_fn[i]) return 1; return 0; }
 
 /* ---- wrapped native calls (only the library's own calls come through here) */
+static int fail_kc;                                     /* the next `fail_kc` calls of the library fail */
 int __wrap_pthread_key_create (pthread_key_t *key, void (*d) (void *)) {
+	if (fail_kc > 0) { fail_kc--; nat ("kcfail"); return EAGAIN; }
 	int r = __real_pthread_key_create (key, d);
 	char b[24];
 	if (r == 0) {
@@ -379,12 +385,34 @@ static void exec_op (Slot *s) {
 		int h = tag_handle (p, t, o->joinable, 1, 1);
 		snprintf (o->res, 48, "T%d,H%d", t, h);
 		break; }
-	case O_SET: case O_REPLACE: case O_GET: tls_call (o->kind, kptr[o->k], o->v, o->res); break;
+	case O_SET: case O_REPLACE: case O_GET:
+		fail_kc = o->jfail;                             /* `… fail`: the lazy pthread_key_create of this call fails */
+		tls_call (o->kind, kptr[o->k], o->v, o->res);
+		if (fail_kc) DIE ("scripted pthread_key_create failure was not consumed");
+		break;
 	case O_RACE:
 		while (!race_go) ;
 		p_uthread_set_local (kptr[o->k], (ppointer) (uintptr_t) o->v);
 		break;
 	case O_CURRENT: {
+		if (o->jfail) {
+			/* the next 2 / 3 pthread_key_create calls fail: the fresh handle cannot be stored */
+			fail_kc = o->jfail;
+			watch_big = 1; first_big = NULL; first_big_freed = 0;
+			PUThread *q = p_uthread_current ();
+			watch_big = 0;
+			if (fail_kc) DIE ("scripted pthread_key_create failures were not consumed");
+			if (q != NULL) { strcpy (o->res, "nonnull-after-native-failure"); break; }
+			pthread_mutex_lock (&amx);
+			if (nextH >= MAXH) DIE ("too many handles");
+			int id = nextH++;
+			hptr[id] = NULL; urefs[id] = 0; hthread[id] = -1; hjoinable[id] = 0; hjoined[id] = 0; hthreadref[id] = 0; hours[id] = 0;
+			if (first_big != NULL && first_big_freed) freedH[nfreedH++] = id;
+			else if (first_big != NULL) { int i = blk_find (first_big); if (i >= 0) { blks[i].tag = 'H'; blks[i].id = id; } }
+			pthread_mutex_unlock (&amx);
+			strcpy (o->res, "NULL");
+			break;
+		}
 		PUThread *p = p_uthread_current ();
 		if (p == NULL) DIE ("p_uthread_current failed");
 		snprintf (o->res, 48, "H%d", tag_handle (p, my_slot, 0, 0, 0));
@@ -407,6 +435,16 @@ static void exec_op (Slot *s) {
 		snprintf (o->res, 48, "%d", (int) p_uthread_join (hptr[o->h]));
 		if (fail_join) DIE ("scripted pthread_join failure was not consumed");
 		break;
+	case O_MISC: {
+		/* the entry points without any handle / TLS state: processor count (>= 1, what sysconf says), yield, native id of the caller */
+		pint n = p_uthread_ideal_count ();
+		long sc = sysconf (_SC_NPROCESSORS_ONLN);
+		p_uthread_yield ();
+		P_HANDLE id = p_uthread_current_id ();
+		if (n < 1 || (sc > 0 && n != (pint) sc)) snprintf (o->res, 48, "misc:ideal_count=%d", (int) n);
+		else if (id != (P_HANDLE) ((psize) pthread_self ())) strcpy (o->res, "misc:current_id");
+		else strcpy (o->res, "ok");
+		break; }
 	case O_PRIO: (void) p_uthread_set_priority (hptr[o->h], (PUThreadPriority) o->prio); break;
 	case O_KEYNEW: {
 		PDestroyFunc f = NULL;
@@ -555,17 +593,35 @@ static void run_case (char **lines, int n) {
 			}
 			if (!okc || o.cmode == 99) { bad (); continue; }
 			dispatch (a, &o);
-			if (o.cmode == 1) { Slot *c = &slots[last_created_slot]; swait (&c->done); c->state = RUNNING; }
+			if (o.cmode == 1) { Slot *c = &slots[last_created_slot]; swait (&c->done); c->state = RUNNING; kpub[0] = 1; }
 			answer (o.res, "", 1);
 		} else if (!strcmp (op, "start") && nw == 2) {
 			if (s->state != CREATED) { bad (); continue; }
-			sem_post (&s->start_gate); swait (&s->done); s->state = RUNNING;
+			sem_post (&s->start_gate); swait (&s->done); s->state = RUNNING; kpub[0] = 1;
 			answer ("-", "", 1);
 		} else if ((!strcmp (op, "set") || !strcmp (op, "replace")) && nw == 4) {
 			int k = atoi (w[2]);
 			if (!running || !key_ok (k)) { bad (); continue; }
 			o.kind = !strcmp (op, "set") ? O_SET : O_REPLACE; o.k = k; o.v = strtoul (w[3], NULL, 10);
 			dispatch (a, &o); kpub[k] = 1; answer ("-", "", 1);
+		} else if ((!strcmp (op, "set") || !strcmp (op, "replace")) && nw == 5 && !strcmp (w[4], "fail")) {
+			int k = atoi (w[2]);
+			if (!running || !key_ok (k) || kpub[k]) { bad (); continue; }
+			o.kind = !strcmp (op, "set") ? O_SET : O_REPLACE; o.k = k; o.v = strtoul (w[3], NULL, 10); o.jfail = 1;
+			dispatch (a, &o); answer ("-", "", 1);
+		} else if (!strcmp (op, "get") && nw == 4 && !strcmp (w[3], "fail")) {
+			int k = atoi (w[2]);
+			if (!running || !key_ok (k) || kpub[k]) { bad (); continue; }
+			o.kind = O_GET; o.k = k; o.jfail = 1;
+			dispatch (a, &o); answer (o.res, "", 1);
+		} else if (!strcmp (op, "current") && nw == 3 && (!strcmp (w[2], "fail2") || !strcmp (w[2], "fail3"))) {
+			int pend0 = 0;
+			for (int t = 1; t < nextT; t++) if (slots[t].pending && (slots[t].pend_op.named || slots[t].pend_op.kind == O_CURRENT)) pend0 = 1;
+			if (!running || kpub[0] || pend0) { bad (); continue; }
+			o.kind = O_CURRENT; o.jfail = w[2][4] - '0';
+			dispatch (a, &o);
+			if (o.jfail == 2) kpub[0] = 1;
+			answer (o.res, "", 1);
 		} else if (!strcmp (op, "get") && nw == 3) {
 			int k = atoi (w[2]);
 			if (!running || !key_ok (k)) { bad (); continue; }
@@ -573,11 +629,11 @@ static void run_case (char **lines, int n) {
 			dispatch (a, &o); kpub[k] = 1; answer (o.res, "", 1);
 		} else if (!strcmp (op, "current") && nw == 2) {
 			if (!running) { bad (); continue; }
-			o.kind = O_CURRENT; dispatch (a, &o); answer (o.res, "", 1);
+			o.kind = O_CURRENT; dispatch (a, &o); kpub[0] = 1; answer (o.res, "", 1);
 		} else if (!strcmp (op, "exit") && nw == 3) {
 			if (!running) { bad (); continue; }
 			o.kind = O_EXIT; o.code = strtol (w[2], NULL, 10);
-			dispatch (a, &o);                       /* library thread: `done` comes from the gate destructor */
+			dispatch (a, &o); kpub[0] = 1;                       /* library thread: `done` comes from the gate destructor */
 			if (!(s->foreign || a == 0)) { s->state = FINISHED; strcpy (o.res, "-"); }
 			answer (o.res, "", 1);
 		} else if (!strcmp (op, "return") && nw == 2) {
@@ -639,6 +695,9 @@ static void run_case (char **lines, int n) {
 			if (!running || h < 0 || h >= nextH || !permitted_use (a, h) || !hours[h] || slots[hthread[h]].state == ENDED
 			    || strlen (w[3]) != 1 || w[3][0] < '0' || w[3][0] > '7') { bad (); continue; }
 			o.kind = O_PRIO; o.h = h; o.prio = pr; dispatch (a, &o); answer ("-", "", 1);
+		} else if (!strcmp (op, "misc") && nw == 2) {
+			if (!running) { bad (); continue; }
+			o.kind = O_MISC; dispatch (a, &o); answer (o.res, "", 1);
 		} else if (!strcmp (op, "keynew") && nw == 3) {
 			if (!running || (strcmp (w[2], "n") && strcmp (w[2], "x")) || nextK >= MAXK) { bad (); continue; }
 			o.kind = O_KEYNEW; o.notif = !strcmp (w[2], "n"); dispatch (a, &o); answer (o.res, "", 1);
@@ -663,13 +722,13 @@ static void run_case (char **lines, int n) {
 			if (is_start) sem_post (&s->start_gate); else sem_post (&s->cmd);
 			swait (&s->done);
 			if (s->at_cas) { s->pending = 1; s->pend_op = o; s->pend_op.named = is_start; answer ("-", "atcas", 1); }
-			else { s->arm_cas = 0; if (is_start) s->state = RUNNING; answer (s->op.res[0] && !is_start ? s->op.res : "-", "done", 1); }
+			else { s->arm_cas = 0; if (is_start) s->state = RUNNING; if (is_start || is_cur) kpub[0] = 1; answer (s->op.res[0] && !is_start ? s->op.res : "-", "done", 1); }
 		} else if (!strcmp (op, "kcas") && nw == 2) {
 			if (!s->pending) { bad (); continue; }
 			s->pending = 0; s->at_cas = 0; s->cas_result = 0;
 			sem_post (&s->cas_gate); swait (&s->done);
 			if (s->pend_op.named) s->state = RUNNING;
-			if (!s->pend_op.named && s->pend_op.kind != O_CURRENT) kpub[s->pend_op.k] = 1;
+			if (!s->pend_op.named && s->pend_op.kind != O_CURRENT) kpub[s->pend_op.k] = 1; else kpub[0] = 1;
 			answer (s->pend_op.named ? "-" : s->op.res, s->cas_result == 1 ? "won" : "lost", 1);
 		} else bad ();
 	}
